@@ -36,6 +36,7 @@ def ok_of(c, t):
 def run(chk, tier):
     prog, info = common.program("all")
     common.note_extraction(chk, info, prog)
+    common.vacuity(chk, ['R-LIN', 'R-WIRE'])
     chk.explanation = ("The record/message pipeline of File::scan is summarised by value numbering (callees opaque): the outer loop walks File::records(self) in "
                        "order, decompresses exactly the compressed records, decodes every record's messages, and every failure is an error return; the inner loop "
                        "walks that record's messages in order and on each Digital Radar Data message — and on no other — appends exactly into_radial(message)? to the "
